@@ -753,3 +753,41 @@ def propagate_aliases(tree, frozen_of) -> int:
         ast.fix_missing_locations(f)
         n_done += len(ok)
     return n_done
+
+
+# ---------------------------------------------------------------------------------------------------------------- N-guard
+def positive_guards(tree, flags=("_USE_CYTHON",)) -> int:
+    """`if not FLAG: A; return ..` followed by REST   ->   `if FLAG: REST  else: A; return ..`
+       `if not FLAG: A  else: B`                        ->   `if FLAG: B  else: A`
+    for the module-level implementation switches: the rules that pair a compiled function with its fallback read the switch in its
+    positive form.  Same program, same line numbers."""
+    n = 0
+
+    def is_neg(t):
+        return isinstance(t, ast.UnaryOp) and isinstance(t.op, ast.Not) and isinstance(t.operand, ast.Name) and t.operand.id in flags
+
+    def fix(stmts):
+        nonlocal n
+        i = 0
+        while i < len(stmts):
+            st = stmts[i]
+            for fld in ("body", "orelse", "finalbody"):
+                sub = getattr(st, fld, None)
+                if isinstance(sub, list) and sub and isinstance(sub[0], ast.stmt) and not isinstance(st, ast.ClassDef):
+                    fix(sub)
+            for h in getattr(st, "handlers", []) or []:
+                fix(h.body)
+            if isinstance(st, ast.If) and is_neg(st.test):
+                if st.orelse:
+                    st.test, st.body, st.orelse = st.test.operand, st.orelse, st.body
+                    n += 1
+                elif st.body and isinstance(st.body[-1], (ast.Return, ast.Raise)) and stmts[i + 1:]:
+                    rest = stmts[i + 1:]
+                    st.test, st.orelse, st.body = st.test.operand, st.body, rest
+                    del stmts[i + 1:]
+                    n += 1
+            i += 1
+    for c in ast.walk(tree):
+        if isinstance(c, (ast.FunctionDef, ast.AsyncFunctionDef)):
+            fix(c.body)
+    return n
